@@ -79,6 +79,66 @@ def check_init_dominance(P, R, rid):
     return h, req_init, resp_init
 
 
+def check_init_containers_fresh(P, R, rid, why):
+    bi = P.func(f'{RS}:BaseResponse.__init__')
+    # every store of the per-request containers is a container made by this call: adopting a caller's mapping makes later writes of this response land in an
+    # object the application keeps
+    def _fresh(v):
+        if isinstance(v, ast.Constant) and v.value is None:
+            return True
+        if isinstance(v, (ast.Dict, ast.DictComp, ast.List, ast.ListComp)):
+            return True
+        if isinstance(v, ast.Call) and (dotted(v.func) or '').split('.')[-1] in ('dict', 'SimpleCookie', 'BaseCookie', 'OrderedDict', 'defaultdict', 'copy', 'deepcopy', 'list'):
+            return True
+        return False
+    for st in walk_shallow(bi.node):
+        if not isinstance(st, ast.Assign):
+            continue
+        tnames = [src(t) for t in st.targets]
+        if any(t in ('self._headers', 'self._cookies') for t in tnames) or ('self.headers.dict' in tnames and src(st.value) != 'self._headers'):
+            ok = _fresh(st.value)
+            R.ob(rid, bi, st, ok, text=f'`{short(st)}`: the container is made by this call', detail='' if ok else
+                 f'`{short(st)}` makes the response use an object that came from outside the call: what this response later adds (keyword headers, '
+                 f'resp.headers[...] = ..) is written into the caller\'s mapping and is there for the next response built from it',
+                 why=why, key_extra='adopted-container')
+
+
+def check_critical_page_from_environ(P, R, rid):
+    """_handle can fail before it re-initialised the per-thread objects (its first statements read the environ): whatever the handlers of wsgi's outer try
+    read from self.request / self.response is then the previous request's"""
+    w = P.func(f'{OM}:Ombott.wsgi')
+    g, rd = w.cfg, w.rd
+    n_seen = 0
+    for t in walk_shallow(w.node):
+        if not isinstance(t, ast.Try):
+            continue
+        if not any(isinstance(c, ast.Call) and isinstance(c.func, ast.Attribute) and c.func.attr == '_handle' for b in t.body for c in ast.walk(b)):
+            continue
+        for hd in t.handlers:
+            for b in hd.body:
+                for x in ast.walk(b):
+                    if not (isinstance(x, ast.Attribute) and isinstance(x.ctx, ast.Load)):
+                        continue
+                    v = x.value
+                    stale = None
+                    if isinstance(v, ast.Attribute) and src(v) in ('self.request', 'self.response'):
+                        stale = src(v)
+                    elif isinstance(v, ast.Name):
+                        ns = g.node_of_stmt(x)
+                        if ns:
+                            vals = {src(d.value) for d in rd.root_defs(ns[0], v.id) if d.value is not None}
+                            if vals and vals <= {'self.request', 'self.response'}:
+                                stale = sorted(vals)[0]
+                    if stale:
+                        n_seen += 1
+                        R.ob(rid, w, x, False, text=f'`{short(x)}` in the critical-error handler', detail=
+                             f'`{short(x)}` reads {stale} in a handler that is also entered when _handle failed before re-initialising the per-thread objects '
+                             f'(e.g. an environ without PATH_INFO): the value is the previous request\'s and goes into this response',
+                             why='nothing set while serving an earlier request may appear in a later response', key_extra='critical-page-stale')
+    if not n_seen:
+        R.ob(rid, w, w.node, True, text='the critical-error page is built from environ and the caught exception only')
+
+
 def check(P, R):
     R.rule('C09.a', 're-initialisation dominates every exit of _handle', floor=8)
     R.rule('C09.b', 'no long-lived exception object is raised', floor=20)
@@ -86,6 +146,7 @@ def check(P, R):
     R.rule('C09.d', 'shared containers written only per the frozen table', floor=2)
 
     check_init_dominance(P, R, 'C09.a')
+    check_critical_page_from_environ(P, R, 'C09.a')
     check_error_objects_read_only(P, R, 'C09.c')
     # BaseResponse.__init__ resets all per-request fields
     bi = P.func(f'{RS}:BaseResponse.__init__')
@@ -108,6 +169,7 @@ def check(P, R):
             ok = any(isinstance(s.value, ast.Dict) and not s.value.keys for s in sts)
         R.ob('C09.a', bi, sts[0] if sts else bi.node, ok, text=f'self.{name} reset by __init__', detail='' if ok else
              f'BaseResponse.__init__ does not reset {name} on every path: it survives from the previous request')
+    check_init_containers_fresh(P, R, 'C09.a', 'nothing set while serving an earlier request may appear in a later response')
     hd = stores.get('status', [])
     R.ob('C09.a', bi, hd[0] if hd else bi.node, bool(hd), text='self.status reset by __init__', detail='' if hd else 'status not reset',
          nontrivial=False)
@@ -341,6 +403,24 @@ def check_apply(P, R):
                  f'objects, so a cookie set afterwards (a custom error handler calling response.set_cookie) lands in the shared error\'s jar and is replayed on every later '
                  f'400 / 413, and the jar grows with the requests',
                  why='nothing set while serving an earlier request may appear in a later response; retention stays bounded', key_extra='jar-alias-nonempty')
+    # apply() reads the applied response and writes the live one: the applied object may be a stored one (errors_map), and what it carries is what must arrive
+    from .. import effects as _E
+    for x in walk_shallow(f.node):
+        wr = None
+        if isinstance(x, ast.Call) and isinstance(x.func, ast.Attribute) and x.func.attr in _E.MUTATORS:
+            rv = T.xsrc(f, x.func.value, g.node_of_stmt(x)[0], keep=(rp,))
+            if rv == 'self' or rv.startswith('self.'):
+                wr = rv
+        elif isinstance(x, (ast.Assign, ast.AugAssign, ast.Delete)):
+            tg = x.targets if not isinstance(x, ast.AugAssign) else [x.target]
+            for t in tg:
+                if isinstance(t, (ast.Attribute, ast.Subscript)) and (dotted(t.value) or '').split('.')[0] == 'self':
+                    wr = src(t)
+        if wr:
+            R.ob('C09.c', f, x, False, text=f'`{short(x)}`: apply() only reads the applied response', detail=
+                 f'`{short(x)}` writes `{wr}` of the response being applied: a raised / returned response (possibly a stored one, raised again later) is changed by '
+                 f'the request it was applied to - here the older state of the live response is written over what the applied response carries',
+                 why='the errors_map responses are shared by all requests; what the applied response carries is what is sent', key_extra='apply-writes-source')
     calls = [c for c in walk_shallow(f.node) if isinstance(c, ast.Call) and isinstance(c.func, ast.Attribute)]
     def _recv(c_):
         return T.xsrc(f, c_.func.value, g.node_of_stmt(c_)[0], keep=(rp,))
